@@ -30,6 +30,8 @@ type cs struct {
 	N       int      `json:"parties"`
 	Prog    int      `json:"program"`
 	Inputs  []string `json:"inputs"`
+	// Inputs2: a second Run on the same Network (same circuit) with these inputs, after the first one returned
+	Inputs2 []string `json:"inputs2,omitempty"`
 	Triples []int    `json:"triple_requests"` // Pool.Get counts issued by every party right after Connect
 	Order   []int    `json:"order"`
 	P       int      `json:"p"`
@@ -84,6 +86,7 @@ type party struct {
 	id      int
 	err     error
 	out     []*big.Int
+	out2    []*big.Int
 	triples []*gmw.Triples
 	done    bool
 }
@@ -137,6 +140,16 @@ func system(k cs, w *world, c *circuit.Circuit) func() {
 					return
 				}
 				p.out = out
+				if k.Inputs2 != nil {
+					in2, _ := new(big.Int).SetString(k.Inputs2[i], 10)
+					out2, err := nw.Run(in2, c, false)
+					if err != nil {
+						p.err = fmt.Errorf("second Run: %v", err)
+						nw.Close()
+						return
+					}
+					p.out2 = out2
+				}
 				if err := nw.Close(); err != nil {
 					p.err = fmt.Errorf("Close: %v", err)
 				}
@@ -191,27 +204,37 @@ func judge(k cs, w *world, r *csched.Result, c *circuit.Circuit) (string, string
 		}
 	}
 	// outputs
-	var in []bool
-	for i := 0; i < k.N; i++ {
-		v, _ := new(big.Int).SetString(k.Inputs[i], 10)
-		for b := 0; b < int(c.Inputs[i].Type.Bits); b++ {
-			in = append(in, v.Bit(b) == 1)
-		}
-	}
-	wires, err := bitsim.Eval(c, in)
-	if err != nil {
-		panic(err)
-	}
-	want := bitsim.Outputs(c, wires)
-	for _, p := range w.ps {
-		if len(p.out) != len(want) {
-			return "arity", fmt.Sprintf("party %d returned %d outputs, want %d", p.id, len(p.out), len(want))
-		}
-		for i := range want {
-			if p.out[i].Cmp(want[i]) != 0 {
-				return "wrong-output", fmt.Sprintf("party %d output %d = %s, plain evaluation = %s", p.id, i, p.out[i], want[i])
+	check := func(inputs []string, get func(p *party) []*big.Int, which string) (string, string) {
+		var in []bool
+		for i := 0; i < k.N; i++ {
+			v, _ := new(big.Int).SetString(inputs[i], 10)
+			for b := 0; b < int(c.Inputs[i].Type.Bits); b++ {
+				in = append(in, v.Bit(b) == 1)
 			}
 		}
+		wires, err := bitsim.Eval(c, in)
+		if err != nil {
+			panic(err)
+		}
+		want := bitsim.Outputs(c, wires)
+		for _, p := range w.ps {
+			out := get(p)
+			if len(out) != len(want) {
+				return "arity" + which, fmt.Sprintf("party %d returned %d outputs, want %d", p.id, len(out), len(want))
+			}
+			for i := range want {
+				if out[i].Cmp(want[i]) != 0 {
+					return "wrong-output" + which, fmt.Sprintf("party %d output %d = %s, plain evaluation = %s", p.id, i, out[i], want[i])
+				}
+			}
+		}
+		return "", ""
+	}
+	if kind, what := check(k.Inputs, func(p *party) []*big.Int { return p.out }, ""); kind != "" {
+		return kind, what
+	}
+	if k.Inputs2 != nil {
+		return check(k.Inputs2, func(p *party) []*big.Int { return p.out2 }, ".second-run")
 	}
 	return "", ""
 }
@@ -444,6 +467,11 @@ func work(ctx *runner.Ctx) {
 				}
 				for _, o := range orders {
 					data = append(data, cs{N: n, Prog: prog, Inputs: inputsFor(c, n, variant), Triples: reqs, Order: o, P: 0, F: 1, Seed: seed + uint64(variant)})
+				}
+				// a second Run on the same Network after the first one (same circuit, other inputs)
+				if variant == 0 && (!quick || prog <= 1) {
+					data = append(data, cs{N: n, Prog: prog, Inputs: inputsFor(c, n, 0), Inputs2: inputsFor(c, n, 1), Triples: []int{1}, Order: ident(n), P: 0, F: 1, Seed: seed})
+					data = append(data, cs{N: n, Prog: prog, Inputs: inputsFor(c, n, 2), Inputs2: inputsFor(c, n, 2), Triples: nil, Order: ident(n), P: 0, F: 1, Seed: seed})
 				}
 				// the same session with inputs handed over as NEGATIVE integers (what IOArg.Parse returns for "-5"):
 				// the wires carry their two's complement bits
